@@ -9,7 +9,7 @@ import (
 func init() { register("C03", propC03) }
 
 func propC03(c *Ctx) {
-	c.Explanation = "Decides admission and reset construction as dominance / def-use facts for all inputs: (H1) endpoints are sent on acceptedChan only by deliverAccepted (and Listen's re-queue of already admitted ones); (H2) deliverAccepted is called only after createEndpointAndPerformHandshake returned nil error - whose success return is dominated by handshake.execute()==nil - or, in SYN-cookie mode, only for a segment whose flags are exactly ACK, whose cookie validates and decodes to an MSS index inside the table, after createConnectedEndpoint succeeded, with iss = ack-1 and irs = seq-1; (H3) handshake.state becomes Completed only under checkAck==true, with ACK set (SYN-RCVD) or SYN and ACK set (SYN-SENT); (H4) checkAck's complete decision table over {ACK set, ack == iss+1} is !(ACK && ack != iss+1), and on the false result exactly one RST|ACK is sent whose sequence number is the offending acknowledgement number; (H5) replyWithReset sends RST|ACK with seq = the segment's ack number (0 without ACK) and ack = seq+logical length; HandleUnknownDestinationPacket replies exactly once and never to a RST; (H6) the listener dispatches on the whole flag byte (== SYN, == ACK), not on a mask; (H7) the SYN-cookie pipeline keeps 32 bits end to end: no lossy integer narrowing in encodeMSS/createCookie/isCookieValid and the validated data is compared as decoded. (H8) the length used for a reset's ACK number counts SYN and FIN separately (shared path table of logicalLen); H3 also tables the initial handshake states (resetState, resetToSynRcvd). NOT decided: strength of the cookie hash, behaviour over sequences of handshake segments, cookie expiry timing."
+	c.Explanation = "Decides admission and reset construction as dominance / def-use facts for all inputs: (H1) endpoints are sent on acceptedChan only by deliverAccepted (and Listen's re-queue of already admitted ones); (H2) deliverAccepted is called only after createEndpointAndPerformHandshake returned nil error - whose success return is dominated by handshake.execute()==nil - or, in SYN-cookie mode, only for a segment whose flags are exactly ACK, whose cookie validates and decodes to an MSS index inside the table, after createConnectedEndpoint succeeded, with iss = ack-1 and irs = seq-1; (H3) handshake.state becomes Completed only under checkAck==true, with ACK set (SYN-RCVD) or SYN and ACK set (SYN-SENT); (H4) checkAck's complete decision table over {ACK set, ack == iss+1} is !(ACK && ack != iss+1), and on the false result exactly one RST|ACK is sent whose sequence number is the offending acknowledgement number; (H5) replyWithReset sends RST|ACK with seq = the segment's ack number (0 without ACK) and ack = seq+logical length; HandleUnknownDestinationPacket replies exactly once and never to a RST; (H6) the listener dispatches on the whole flag byte (== SYN, == ACK), not on a mask; (H7) the SYN-cookie pipeline keeps 32 bits end to end: no lossy integer narrowing in encodeMSS/createCookie/isCookieValid and the validated data is compared as decoded. (H8) the length used for a reset's ACK number counts SYN and FIN separately (shared path table of logicalLen); H3 also tables the initial handshake states (resetState, resetToSynRcvd). (H9) isRegistered follows every registration before the registering function can return and is cleared with Close's inline unregistration (shared with C09/D8). (H10) the half-open connection counter: increment and admission exactly below the threshold, decrement on completion. NOT decided: strength of the cookie hash, behaviour over sequences of handshake segments, cookie expiry timing."
 	hs := "(*tcp.handshake)."
 	ep := "(*tcp.endpoint)."
 	rst, ack, syn := "(*tcp.segment).flagIsSet($1, 4)", "(*tcp.segment).flagIsSet($1, 16)", "(*tcp.segment).flagIsSet($1, 2)"
@@ -164,6 +164,24 @@ func propC03(c *Ctx) {
 				Why: "exactly one reply, for a parsed segment that is not itself a RST"},
 		})
 	}
+
+	h10 := c.Rule("H10", "K9 site tables (closed, exact guards)", "the half-open connection counter that switches the listener to SYN cookies", 4)
+	if fn := c.Fn(h10, "tcp.incSynRcvdCount"); fn != nil {
+		below := "(tcp.synRcvdCount.value < tcp.SynRcvdCountThreshold)"
+		c.CheckSites(h10, fn, []SiteSpec{
+			{Kind: "return", Args: []string{"false"}, Guards: []string{"!" + below}, Exact: true, N: 1, Why: "at the threshold no further handshake goroutine is started (cookies are used instead)"},
+			{Kind: "store", Target: "struct{sync.Mutex; value uint64; pending sync.WaitGroup}.value", Args: []string{"tcp.synRcvdCount", "(1 + tcp.synRcvdCount.value)"}, Guards: []string{below}, Exact: true, N: 1, Why: "below it the count grows by one"},
+			{Kind: "return", Args: []string{"true"}, Guards: []string{below}, Exact: true, N: 1, Why: "... and the handshake may proceed"},
+		})
+	}
+	if fn := c.Fn(h10, "tcp.decSynRcvdCount"); fn != nil {
+		c.CheckSites(h10, fn, []SiteSpec{
+			{Kind: "store", Target: "struct{sync.Mutex; value uint64; pending sync.WaitGroup}.value", Args: []string{"tcp.synRcvdCount", "(tcp.synRcvdCount.value - 1)"}, Guards: []string{}, Exact: true, N: 1, Why: "a finished handshake gives its slot back"},
+		})
+	}
+
+	h9 := c.Rule("H9", "K2 must-follow + K7 coupled updates (shared with C09/D8)", "an endpoint whose passive handshake fails does not stay registered: isRegistered is set right after the registration", 6)
+	registrationFlagRule(c, h9)
 
 	h8 := c.Rule("H8", "K9 path table (shared with C01/R6, C02/W7)", "a segment's sequence-space length = payload + SYN + FIN: the ACK number of a reset answering a stray segment", 5)
 	logicalLenRule(c, h8)
